@@ -364,6 +364,17 @@ def handleVV (toks : List String) : Option String :=
   | _ => handleMut toks
 
 /-! ### operations -/
+/-- `e.looplong n f`: `next` succeeds `n` times (value = call index mod 3) and then fails with `f`; the body adds the value
+to a sum.  State = (calls of next, sum).  The model's `Either.loop` runs the `n + 1` iterations (it is tail recursive). -/
+def loopLongLine (n f : Nat) : String :=
+  let next : Unit → K (Nat × Nat) (Either Nat Nat) := fun _ s =>
+    let c := s.1
+    (.ok (if c < n then Either.success (c % 3) else Either.failure f), (c + 1, s.2))
+  let body : Nat → K (Nat × Nat) Unit := fun v s => (.ok (), (s.1, s.2 + v))
+  match Either.loop (n + 2) next body (0, 0) with
+  | (.ok r, (c, sum)) => s!"F{r} calls={c} sum={sum} | -"   -- the harness appends its (empty) call log to every line
+  | (.error e, _) => e.name
+
 def handle1 (toks : List String) : Option String :=
   match toks with
   -- optional -------------------------------------------------------------------------------
@@ -476,6 +487,9 @@ def handle1 (toks : List String) : Option String :=
   | ["e.first", l] => do
     let l ← tok (List (OrX (Either Nat Nat))) l
     pure (run1 (Either.firstSuccess ((List.range l.length).zipWith nthThunk l)))
+  | ["e.looplong", n, f] => do
+    let n ← n.toNat?; let f ← f.toNat?
+    if n ≤ 2000000 ∧ f < 3 then pure (loopLongLine n f) else none
   | ["e.loop", l] => do
     let l ← tok (List (Either Nat Nat)) l
     pure (runWith { queue := l } (Either.loop (l.length + 2) popNext (fun x => lg "b" [x])))
